@@ -315,8 +315,21 @@ def expected_from_cr(unit, s, ns):
 
 
 # tick counts for the DateTime -> chrono direction (per unit, all representable by chrono)
-def tick_grid(unit):
+def tick_grid(unit, dense=False):
     per_sec = 10 ** 9 // SCALE[unit]
+    if dense:
+        # thorough tier: every residue class near 0, +-1 s, +-1 day and a far pre-epoch second,
+        # plus a few hundred spread over four centuries
+        g = set()
+        for base in (0, per_sec, -per_sec, 86400 * per_sec, -86400 * per_sec, -777_600 * per_sec,
+                     -9_000_000_000 * per_sec, 8_000_000_000 * per_sec):
+            for d in list(range(-12, 13)) + [per_sec // 2, -(per_sec // 2), per_sec - 1, 1 - per_sec]:
+                g.add(base + d)
+        for k in range(-200, 201):
+            g.add(k * 31_557_600 * per_sec + (k * 7919) % max(per_sec, 1))
+        if unit == 'Nanosecond':
+            g = {x for x in g if I64MIN < x <= I64MAX}
+        return sorted(g)
     g = [0, 1, -1, per_sec, -per_sec, per_sec + 1, -per_sec - 1, -per_sec + 1, 3 * per_sec // 2,
          -3 * per_sec // 2, -777_600 * per_sec, -777_600 * per_sec + 1, 1_700_000_000 * per_sec + 7]
     return sorted(set(g))
